@@ -185,7 +185,7 @@ package web
 //@   ensures[C15] method: r.Method != "GET" ==> #status == 405 && !#encodedJSON
 //@   ensures[C15] missing: r.Method == "GET" && !mapHas(#lastQuery, "access_token") ==> #status == 400 && !#encodedJSON
 //@   ensures[C15] forbidden: #status != 405 && #status != 400 && !#validatedOK ==> #status == 403 && !#encodedJSON
-//@   ensures[C15] claimsOnlyIfValid: #encodedJSON ==> #validatedOK && #validatedIssuer == "rdpgw"
+//@   ensures[C15] claimsOnlyIfValid: #encodedJSON ==> #validatedOK && #validatedIssuer == "rdpgw" && #validatedLeeway == 0
 //@   site (*encoding/json.Encoder).Encode requires[C15] verified: #validatedOK && #status == 0 && dyn(arg1, jwt.Claims) == info
 //@   nopanic[C10]
 
